@@ -1,10 +1,19 @@
 # Builds the parts of the framework that do not depend on /repo: the hand-written Coq theories (full .vo),
 # the extraction of the executable model and the OCaml driver. Used by MANIFEST.setup_cmd and re-run
 # (a no-op when up to date) by every check.
-COQSRC := $(wildcard coq/theories/*.v)
+# files named in coq/WIP (one per line) are under construction and not part of the build
+WIP := $(shell cat coq/WIP 2>/dev/null)
+COQSRC := $(filter-out $(addprefix coq/theories/,$(WIP)),$(wildcard coq/theories/*.v))
 
 .PHONY: framework clean
-framework: coq/extract/driver coq/oracle/.oracle.stamp
+# component makefiles (mk/*.mk) add their own build products to EXTRA_TARGETS
+EXTRA_TARGETS :=
+-include mk/*.mk
+framework: coq/extract/driver coq/oracle/.oracle.stamp $(EXTRA_TARGETS)
+
+# the coq_makefile project lists every file of coq/theories (dependencies are found by coqdep)
+coq/_CoqProject: $(COQSRC)
+	(echo "-Q theories Seccomp"; for f in $(COQSRC); do echo $${f#coq/}; done) > $@
 
 coq/Makefile: coq/_CoqProject
 	cd coq && coq_makefile -f _CoqProject -o Makefile >/dev/null
